@@ -5,6 +5,7 @@ import (
 	"fmt"
 	"math"
 	"reflect"
+	"strings"
 
 	"github.com/xinchentechnote/fin-proto-go/codec"
 	"golang.org/x/exp/constraints"
@@ -65,6 +66,15 @@ type primCtx struct {
 
 func sizeOf[T any]() int { var z T; return int(reflect.TypeOf(z).Size()) }
 
+// defined (named) types: the generic primitives accept them through their ~ constraints
+type (
+	namedI64   int64
+	namedU16   uint16
+	namedF32   float32
+	namedPfx16 uint16
+	namedPfx8  uint8
+)
+
 func kindOf[K codec.BasicType]() string {
 	var z K
 	switch reflect.TypeOf(z).Kind() {
@@ -90,9 +100,36 @@ func kindOf[K codec.BasicType]() string {
 	return "f64"
 }
 
+// elemName names an element type in pair names: the schema kind, plus the Go name for defined types.
+func elemName[K codec.BasicType]() string {
+	var z K
+	if n := reflect.TypeOf(z).Name(); strings.HasPrefix(n, "named") {
+		return n + "(" + kindOf[K]() + ")"
+	}
+	return kindOf[K]()
+}
+
+// drawBits draws a bit pattern for element type K.  For defined float types signalling NaNs are made
+// quiet: encoding/binary handles `type X float32` through reflection, whose Float() widens to float64
+// and thereby quiets them - a standard-library effect that has nothing to do with byte order.
+func drawBits[K codec.BasicType](c *primCtx) uint64 {
+	x := c.g.ScalarBits(kindOf[K]())
+	var z K
+	if _, ok := any(z).(namedF32); ok && x&0x7F800000 == 0x7F800000 && x&0x007FFFFF != 0 {
+		x |= 0x00400000
+	}
+	return x
+}
+
 func fromBits[K codec.BasicType](x uint64) K {
 	var z K
 	switch any(z).(type) {
+	case namedI64:
+		return any(namedI64(x)).(K)
+	case namedU16:
+		return any(namedU16(x)).(K)
+	case namedF32:
+		return any(namedF32(math.Float32frombits(uint32(x)))).(K)
 	case float32:
 		return any(math.Float32frombits(uint32(x))).(K)
 	case float64:
@@ -117,6 +154,12 @@ func fromBits[K codec.BasicType](x uint64) K {
 
 func bitsOf[K codec.BasicType](v K) uint64 {
 	switch x := any(v).(type) {
+	case namedI64:
+		return uint64(x)
+	case namedU16:
+		return uint64(x)
+	case namedF32:
+		return uint64(math.Float32bits(float32(x)))
 	case float32:
 		return uint64(math.Float32bits(x))
 	case float64:
@@ -202,7 +245,13 @@ func pname(base string, ts ...string) string {
 	return s + "]"
 }
 
-func prefName[T constraints.Unsigned]() string { return fmt.Sprintf("uint%d", sizeOf[T]()*8) }
+func prefName[T constraints.Unsigned]() string {
+	var z T
+	if n := reflect.TypeOf(z).Name(); !strings.HasPrefix(n, "uint") {
+		return fmt.Sprintf("%s(uint%d)", n, sizeOf[T]()*8)
+	}
+	return fmt.Sprintf("uint%d", sizeOf[T]()*8)
+}
 
 func listLen[T constraints.Unsigned](c *primCtx) int {
 	max := 300
@@ -218,9 +267,9 @@ func listLen[T constraints.Unsigned](c *primCtx) int {
 }
 
 func primScalar[K codec.BasicType](c *primCtx) {
-	name := pname("WriteBasicType/LE", kindOf[K]())
+	name := pname("WriteBasicType/LE", elemName[K]())
 	for i := 0; i < c.n; i++ {
-		v := fromBits[K](c.g.ScalarBits(kindOf[K]()))
+		v := fromBits[K](drawBits[K](c))
 		var b1, b2 bytes.Buffer
 		e1, p1 := mon.Call(func() error { return codec.WriteBasicType(&b1, v) })
 		e2, p2 := mon.Call(func() error { return codec.WriteBasicTypeLE(&b2, v) })
@@ -237,12 +286,12 @@ func primScalar[K codec.BasicType](c *primCtx) {
 }
 
 func primBasicList[T constraints.Unsigned, K codec.BasicType](c *primCtx) {
-	name := pname("WriteBasicTypeList/LE", prefName[T](), kindOf[K]())
+	name := pname("WriteBasicTypeList/LE", prefName[T](), elemName[K]())
 	for i := 0; i < c.n; i++ {
 		n := listLen[T](c)
 		vs := make([]K, n)
 		for j := range vs {
-			vs[j] = fromBits[K](c.g.ScalarBits(kindOf[K]()))
+			vs[j] = fromBits[K](drawBits[K](c))
 		}
 		var b1, b2 bytes.Buffer
 		e1, p1 := mon.Call(func() error { return codec.WriteBasicTypeList[T](&b1, vs) })
@@ -398,6 +447,27 @@ func primObjList[T constraints.Unsigned](c *primCtx) {
 		if !c.judgePair(name, b1.Bytes(), b2.Bytes(), e1, e2, p1, p2, segs, refBE, fmt.Sprintf("%d objects", n)) {
 			continue
 		}
+		// a list with nil entries is outside the supported domain (the pinned code panics on it); should
+		// a writer start to tolerate them, whatever it emits must still differ between the two variants
+		// by byte reversal of the count only
+		if n >= 2 && i%8 == 0 {
+			ws := append([]*rawObj(nil), vs...)
+			ws[c.rng.Intn(n)] = nil
+			var n1, n2 bytes.Buffer
+			_, q1 := mon.Call(func() error { return codec.WriteObjectList[T](&n1, ws) })
+			_, q2 := mon.Call(func() error { return codec.WriteObjectListLE[T](&n2, ws) })
+			if q1 == nil && q2 == nil && n1.Len() == n2.Len() && n1.Len() >= sizeOf[T]() {
+				w := sizeOf[T]()
+				rev := append([]byte(nil), n1.Bytes()...)
+				for k := 0; k < w/2; k++ {
+					rev[k], rev[w-1-k] = rev[w-1-k], rev[k]
+				}
+				c.evals++
+				if !bytes.Equal(rev, n2.Bytes()) {
+					c.e.R.Violate("C03/prim-le-not-reversed-be/"+name+"/nil-entries", "C03/prim-le-not-reversed-be/"+name, map[string]any{"primitive": name, "value": "object list with a nil entry", "be_bytes": val.Hex(n1.Bytes(), 32), "le_bytes": val.Hex(n2.Bytes(), 32)})
+				}
+			}
+		}
 		r1, e1 := codec.ReadObjectList[T](bytes.NewBuffer(b1.Bytes()), func() *rawObj { return &rawObj{} })
 		r2, e2 := codec.ReadObjectListLE[T](bytes.NewBuffer(b2.Bytes()), func() *rawObj { return &rawObj{} })
 		ok := e1 == nil && e2 == nil && len(r1) == n && len(r2) == n
@@ -434,7 +504,7 @@ func primPerPrefix[T constraints.Unsigned](c *primCtx) {
 
 func c03(e *Env) {
 	r := e.R
-	r.Rule("(a) every big/little-endian primitive pair of codec/binary_codec.go instantiated for every prefix type (u8,u16,u32,u64) and every element type (10 numeric types): case i is a pure function of (seed,'C03',pair,i), boundary-biased numbers, list lengths 0..258, hostile text; (b) every message type: canonical values as in C01, tokenised by the pinned schema. distinct_nontrivial = (a) pairs of outputs containing at least one multi-byte numeric token whose byte reversal differs from itself + (b) distinct non-zero values whose image contains such a token")
+	r.Rule("(a) every big/little-endian primitive pair of codec/binary_codec.go instantiated for every prefix type (u8,u16,u32,u64) and every element type (10 numeric types), and again with defined (named) element and prefix types, which the ~ constraints admit: case i is a pure function of (seed,'C03',pair,i), boundary-biased numbers, list lengths 0..258, hostile text; (b) every message type: canonical values as in C01, tokenised by the pinned schema. distinct_nontrivial = (a) pairs of outputs containing at least one multi-byte numeric token whose byte reversal differs from itself + (b) distinct non-zero values whose image contains such a token")
 	r.Explain("Oracle (a): LE output == BE output with the bytes of every integer/float token reversed and every text byte unchanged; BE output == own big-endian rendering; ReadLE(LE bytes) ≡ ReadBE(BE bytes) ≡ value. Oracle (b): every numeric token of width > 1 in lib.Encode(v) — scalar, list count, list element, text-length prefix, self-computed length, self-computed checksum — is rendered in the module's single declared byte order (schema has no per-field override); a token that equals the byte-reversed rendering (and is not a palindrome) is a violation; decode side: lib.Decode of the module-endian image must give back the value, a field that comes back byte-swapped is a violation.")
 	r.Assume("token positions come from the pinned schema and the generated value; layout differences other than byte order are C02's business and are not flagged here")
 	// ---- (a) primitives
@@ -451,6 +521,12 @@ func c03(e *Env) {
 		primAllPrefixesBasic[uint64](c)
 		primAllPrefixesBasic[float32](c)
 		primAllPrefixesBasic[float64](c)
+		primAllPrefixesBasic[namedI64](c) // defined element types
+		primAllPrefixesBasic[namedU16](c)
+		primAllPrefixesBasic[namedF32](c)
+		primBasicList[namedPfx16, int32](c) // defined prefix types
+		primBasicList[namedPfx8, uint16](c)
+		primPerPrefix[namedPfx16](c)
 		primPerPrefix[uint8](c)
 		primPerPrefix[uint16](c)
 		primPerPrefix[uint32](c)
@@ -460,7 +536,7 @@ func c03(e *Env) {
 		r.Set("primitive_pairs_instantiated", len(c.pairs))
 		r.Set("primitive_pair_observations", c.evals)
 		r.Sample(map[string]any{"monitor": "primitive pairs", "pairs": sortedKeys(c.pairs)[:6], "observations_per_pair": c.n})
-		if len(c.pairs) < 82 {
+		if len(c.pairs) < 107 {
 			r.Inconclusive(fmt.Sprintf("only %d primitive pairs were exercised", len(c.pairs)))
 		}
 	}
